@@ -33,7 +33,7 @@ PROBES = ['replacement-happened', 'queued', 'refused-do-not-queue', 'already-own
           'release-promotes-waiter', 'waiting-peer-releases', 'owner-disconnects-with-waiter',
           'waiting-peer-disconnects', 'release-not-owner', 'release-nonexistent',
           'requests-concurrently-in-flight', 'real-client-request', 'queue-of-three',
-          'replaced-owner-fate-observed', 'reset-disconnect']
+          'replaced-owner-fate-observed', 'reset-disconnect', 'ten-or-more-peers']
 COMPONENTS = {
     'real': ['txdbus.bus.Bus (dbus_RequestName, dbus_ReleaseName, dbus_GetNameOwner, '
              'dbus_ListQueuedOwners, clientConnected/Disconnected)', 'txdbus.bus.BusProtocol',
@@ -126,6 +126,9 @@ def scenario(ctx):
 
     script = ctx.preset.get('script')
     npeers = ctx.preset.get('npeers') or (2 + ds.choose(3))
+    if script is None and ds.flag(0.05):
+        npeers = 9 + ds.choose(3)       # unique names beyond ':1.9' (':1.10' sorts before ':1.2')
+        sim.probe('ten-or-more-peers')
     for _ in range(npeers):
         connect('ref' if script is not None else None)
     observer = connect('ref')
